@@ -18,14 +18,15 @@ ap.add_argument("prop")
 ap.add_argument("letter")
 ap.add_argument("--props", default="all")
 ap.add_argument("--tier", default="quick")
+ap.add_argument("--as", dest="as_letter", default=None, help="letter to store the change under (round 2: A->C, B->D)")
 a = ap.parse_args()
-sid = "%s-%s" % (a.prop, a.letter)
+sid = "%s-%s" % (a.prop, a.as_letter or a.letter)
 patch = os.path.join(a.src, a.letter + ".diff")
 demo = os.path.join(a.src, a.letter + "_demo.py")
 notes = os.path.join(a.src, "notes.md")
 wt = tempfile.mkdtemp(prefix="intake-")
 os.rmdir(wt)
-meta = {"id": sid, "breaks_property": a.prop, "source": "independent sub-agent given only the property text and a scratch worktree"}
+meta = {"agent_letter": a.letter, "id": sid, "breaks_property": a.prop, "source": "independent sub-agent given only the property text and a scratch worktree"}
 try:
     subprocess.check_call(["git", "-C", "/repo", "worktree", "add", "--detach", "-q", wt, "HEAD"])
     for kit in ("cidar", "ytk", "ecoflex", "plant"):   # the embedded registry archives are build products
